@@ -475,7 +475,22 @@ def main(argv=None):
     except InfraError as e:
         print(f"INFRA-ERROR {pid}: {e}", file=sys.stderr)
         return 2
-    except Exception:
-        traceback.print_exc()
-        print(f"INFRA-ERROR {pid}: harness crashed", file=sys.stderr)
-        return 2
+    except Exception as e:  # noqa: BLE001
+        # The harness itself could not complete (typically: the implementation returned something of an
+        # unexpected shape/type, or raised, at a place the property module does not guard). The correspondence
+        # between model and implementation is then not established: report it as such, naming the exception.
+        tb = traceback.format_exc()
+        print(tb, file=sys.stderr)
+        try:
+            ck.violation(
+                f"harness:{type(e).__name__}",
+                f"the check could not complete its correspondence run against the implementation "
+                f"({type(e).__name__}: {str(e)[:200]}); the property is not shown to hold",
+                {"exception": f"{type(e).__name__}: {e}", "traceback": tb[-3000:]},
+                found_input=False,
+            )
+            return ck.finish()
+        except Exception:  # noqa: BLE001
+            traceback.print_exc()
+            print(f"INFRA-ERROR {pid}: harness crashed", file=sys.stderr)
+            return 2
